@@ -42,8 +42,8 @@ ROWS_CLAUSES = ("rows_error", "rows_count", "rows_int", "rows_str", "rows_float"
 
 # the bounded families are defined in TextCodecMC.tla (FamDefs); TLC prints their definitions
 FAMILIES = {
-    "quick": ["q_adj2", "q_adj3", "q_arr", "q_types", "q_types22", "q_numpair", "q_widths"],
-    "thorough": ["t_adj2", "t_adj2x", "t_adj3", "t_rows3", "t_arr", "t_types", "t_types22", "t_numpair", "t_widths", "t_widths3"],
+    "quick": ["q_adj2", "q_adj3", "q_arr", "q_types", "q_types22", "q_numpair", "q_widths", "q_nul"],
+    "thorough": ["t_adj2", "t_adj2x", "t_adj3", "t_rows3", "t_arr", "t_types", "t_types22", "t_numpair", "t_widths", "t_widths3", "t_nul"],
 }
 RANDOM_TABLES = {"quick": 1200, "thorough": 40000}
 
@@ -431,8 +431,8 @@ def random_word(rng, w):
     out = []
     for _ in range(n):
         u = rng.random()
-        out.append("sp" if u < 0.18 else "dl" if u < 0.30 else "tb" if u < 0.35 else
-                   rng.choice(_NUMISH) if u < 0.50 else rng.choice(_PLAIN))
+        out.append("sp" if u < 0.18 else "dl" if u < 0.30 else "tb" if u < 0.35 else "nul" if u < 0.40 else
+                   rng.choice(_NUMISH) if u < 0.52 else rng.choice(_PLAIN))
     while out and out[-1] == "nul":
         out.pop()
     return out
@@ -638,7 +638,7 @@ def run(ctx):
                         "equality is demanded on the short-decimal lattice (<= 15 / <= 6 digits), for non-finite values and signed zeros"])
     ctx.assumptions = [
         "short-decimal lattice: a decimal with <= 15 (f8) / <= 6 (f4) significant digits survives %.16g / %.7g and a correctly rounding strtod unchanged (membership is checked per value)",
-        "strings are printable ASCII, space and tab (no newline, carriage return, vertical tab, form feed or embedded NUL)",
+        "strings are printable ASCII, space, tab and embedded NUL bytes (no newline, carriage return, vertical tab or form feed)",
         "mixed-endian tables are inside the quantifier (fields x {'<','>'}); they are reported under their own signature",
     ]
     ctx.trusted_base.append("glibc printf/strtod being correctly rounded (lattice membership)")
